@@ -558,7 +558,7 @@ def run_property(modname: str, tier: str, base_seed: int, only: Optional[List[st
                 violations.append(vio)
 
     if par:
-        if shards > 1:
+        if shards > 1 or not os.environ.get("NSSVERIF_INPROCESS"):  # (a single shard also runs in a watched worker)
             import multiprocessing as mp
 
             import concurrent.futures as cf
@@ -571,13 +571,35 @@ def run_property(modname: str, tier: str, base_seed: int, only: Optional[List[st
             try:
                 jobs = [(modname, par, tier, base_seed, s, shards, os.path.join(crumbs, f"shard{s}.json")) for s in range(shards)]
                 died = False
+                stall_s = float(os.environ.get("NSSVERIF_STALL_S", 1800 if tier == "quick" else 4 * 3600))
                 with cf.ProcessPoolExecutor(max_workers=shards, mp_context=ctx) as pool:
                     futs = [pool.submit(_worker, j) for j in jobs]
-                    for fut in cf.as_completed(futs):
-                        try:
-                            absorb(fut.result())
-                        except BrokenProcessPool:
-                            died = True
+                    pending = set(futs)
+                    last_progress = time.time()
+                    while pending:
+                        done, pending = cf.wait(pending, timeout=20, return_when=cf.FIRST_COMPLETED)
+                        for fut in done:
+                            last_progress = time.time()
+                            try:
+                                absorb(fut.result())
+                            except BrokenProcessPool:
+                                died = True
+                        if not done:
+                            # watchdog: every case start touches the shard's breadcrumb; no completed shard and no new
+                            # case anywhere for stall_s seconds = a case that does not terminate (inconclusive: exit 2)
+                            for fn in os.listdir(crumbs):
+                                with contextlib.suppress(OSError):
+                                    last_progress = max(last_progress, os.path.getmtime(os.path.join(crumbs, fn)))
+                            if time.time() - last_progress > stall_s:
+                                stuck = []
+                                for fn in sorted(os.listdir(crumbs)):
+                                    with contextlib.suppress(OSError, ValueError):
+                                        with open(os.path.join(crumbs, fn)) as f:
+                                            stuck.append(json.load(f))
+                                for pr_ in list(getattr(pool, "_processes", {}).values()):
+                                    with contextlib.suppress(Exception):
+                                        pr_.kill()
+                                raise HarnessError(f"no case finished for {stall_s:.0f} s (a case that does not terminate?); cases in flight: {json.dumps(stuck, default=str)[:1500]}")
                 if died:
                     # A worker process was killed (native crash, abort, kill). Every shard left the case it was
                     # running in its breadcrumb file; each is re-run in a fresh interpreter: a case that kills
